@@ -19,7 +19,7 @@ def run(rep, tier):
     lib.proof_gate(rep, PROP, THEOREMS, IMPORTS)
     n, cyc = (180, 200) if tier == "quick" else (18000, 300)
     n = rep.scale(n)
-    agg = runner.correspondence(rep, prop=PROP, mod_name="harness.actsim", driver_kind="action", ncases=n,
+    agg = runner.correspondence(rep, prop=PROP, mod_name="harness.actsim", legal_only=True, driver_kind="action", ncases=n,
                                 extra=(cyc,), nontrivial=nontrivial, sample_fmt=sample)
     rep.coverage.update(agg)
     rep.coverage["rule"] = ("every field action class (R, W, RW, RW1C, RW1S, the four reserved ones) × shapes (unsigned/signed widths "
